@@ -1,0 +1,19 @@
+//go:build verif
+
+// Contracts for gocv (see /verif/DESIGN.md). Comment-only file: takes no part in any build.
+
+package eth
+
+//@ trusted func github.com/ethereum/go-ethereum/crypto.DecompressPubkey
+//@   frame nothing
+//@   ensures result1 == nil ==> result0 != nil
+//@ pure func github.com/ethereum/go-ethereum/crypto.PubkeyToAddress
+//@ trusted func github.com/ethereum/go-ethereum/crypto.Keccak256
+//@   frame nothing
+//@   ensures len(result) == 32
+//@ pure func (github.com/ethereum/go-ethereum/common.Address).String
+//@ pure func formatAddr
+
+// ---- C33: address drivers reachable from Transaction.From must not panic --------------------------
+//@ func pubKey2EthAddr [C33]
+//@   opt overflow=assumed
